@@ -361,4 +361,45 @@ def ratioQ (a b : Tag) : Rat :=
   | some (n, d) => (n : Rat) / (d : Rat)
   | none => 0
 
+-- ------------------------------------------------------------------------------------------------
+-- exact reading of binary64 values, and the error bound evaluated on observed conversions
+
+/-- `2^e` as a rational -/
+def pow2 (e : Int) : Rat :=
+  if 0 ≤ e then ((2 ^ e.toNat : Nat) : Rat) else 1 / ((2 ^ (-e).toNat : Nat) : Rat)
+
+/-- the exact value of a finite binary64 bit pattern (`none` for NaN and ±∞) -/
+def f64ToRat (bits : Nat) : Option Rat :=
+  let negative : Bool := decide (bits / 2 ^ 63 % 2 = 1)
+  let E : Nat := bits / 2 ^ 52 % 2 ^ 11
+  let M : Nat := bits % 2 ^ 52
+  if E = 2047 then none
+  else
+    let mag : Rat :=
+      if E = 0 then (M : Rat) * pow2 (-1074)
+      else ((M + 2 ^ 52 : Nat) : Rat) * pow2 ((E : Int) - 1075)
+    some (if negative then -mag else mag)
+
+/-- is the bit pattern a normal number (neither zero, subnormal, infinite nor NaN)? -/
+def f64IsNormal (bits : Nat) : Bool :=
+  let E : Nat := bits / 2 ^ 52 % 2 ^ 11
+  decide (0 < E ∧ E < 2047)
+
+def absQ (x : Rat) : Rat := if x < 0 then -x else x
+
+/-- `|x − y| ≤ ε·|y|` -/
+def nearB (ε x y : Rat) : Bool := decide (absQ (x - y) ≤ ε * absQ y)
+
+/-- unit roundoff `2⁻⁵³` and `(1+u)^k − 1` -/
+def roundoff : Rat := 1 / ((2 ^ 53 : Nat) : Rat)
+def epsQ (k : Nat) : Rat := (1 + roundoff) ^ k - 1
+
+/-- the conclusion of the binary64 error theorem (`c19_f64_convert_error`) evaluated on one observed
+conversion: exact input `v`, emitted bit pattern `zbits` (a normal number), pair `a → b`:
+`|z − v·ratio| ≤ ((1+2⁻⁵³)³ − 1)·|v·ratio|`. -/
+def convertBoundOk (a b : Tag) (v : Rat) (zbits : Nat) : Option Bool :=
+  match ratioND a b, f64ToRat zbits with
+  | some (n, d), some z => some (nearB (epsQ 3) z (v * ((n : Rat) / (d : Rat))))
+  | _, _ => none
+
 end Units
